@@ -1,45 +1,34 @@
+// hdrdrv binds spec/Header.tla to the real go-quai code.
+//
+//	hdrdrv chains ...   C09: real prime/region/zone chains; VerifyHeader on honest headers and on every single-field
+//	                    deviation (re-sealed); independent oracle for every derived field; entropy / order observations
+//	                    (warm, repeated, cold core on a database copy); replays TLC-generated tree shapes; ndjson trace
+//	                    for spec/HeaderTrace.tla.
+//	hdrdrv seal ...     C08: the TLC case table of the seal part replayed on HeaderChain.VerifySeal, CalcOrder,
+//	                    VerifyHeader, VerifyUncles, Slice.Append (ValidateBody), CheckIfValidWorkShare,
+//	                    UncleWorkShareClassification, consensus.CalcWorkShareThreshold and the AuxPoW helpers.
 package main
 
 import (
 	"fmt"
 	"os"
-	"time"
-
-	"github.com/dominant-strategies/go-quai/common"
-	"github.com/dominant-strategies/go-quai/params"
-	"verifharness/chain"
-	"verifharness/mininet"
 )
 
+func fatal(code int, a ...interface{}) {
+	fmt.Fprintln(os.Stderr, a...)
+	os.Exit(code)
+}
+
 func main() {
-	chain.FastParams()
-	if len(os.Args) > 2 && os.Args[2] == "fork" {
-		params.KawPowForkBlock = 1
+	if len(os.Args) < 2 {
+		fatal(2, "usage: hdrdrv chains|seal ...")
 	}
-	e, err := chain.Boot(chain.EnvOptions{Net: mininet.Options{Quiet: true, MinerPreference: 0.5}, Seed: 1})
-	if err != nil {
-		panic(err)
+	switch os.Args[1] {
+	case "chains":
+		cmdChains(os.Args[2:])
+	case "seal":
+		cmdSeal(os.Args[2:])
+	default:
+		fatal(2, "unknown subcommand")
 	}
-	defer e.Net.Close()
-	r, err := chain.NewRunner(e, 1)
-	if err != nil {
-		panic(err)
-	}
-	head := 0
-	t0 := time.Now()
-	for i := 0; i < 30; i++ {
-		want := -1
-		if i == 1 {
-			want = mininet.Prime
-		}
-		id, err := r.MineOn(head, want)
-		if err != nil {
-			fmt.Println("mine err:", err)
-			return
-		}
-		head = id
-		b := r.Mined[id].Blocks[mininet.Zone]
-		fmt.Printf("blk %d order %d num %v ptn %v diff %v time %d gl %d sl %d bf %v sha %v auxnil %v\n", id, r.Mined[id].Order, b.NumberArray(), b.PrimeTerminusNumber(), b.Difficulty(), b.Time(), b.GasLimit(), b.StateLimit(), b.BaseFee(), b.WorkObjectHeader().ShaDiffAndCount().Difficulty(), b.AuxPow() == nil)
-	}
-	fmt.Println("elapsed", time.Since(t0), common.ZONE_CTX)
 }
